@@ -2,7 +2,6 @@ from __future__ import annotations
 
 import logging
 import threading
-import time
 from collections.abc import Callable
 from concurrent.futures import Future, ThreadPoolExecutor
 
@@ -44,6 +43,7 @@ class ThreadController:
     def __init__(self) -> None:
         self._shutdown_event = threading.Event()
         self._resume_event = threading.Event()
+        self._resume_lock = threading.Lock()
         self.resume()
         self.activate()
 
@@ -65,7 +65,10 @@ class ThreadController:
         """
         if self.is_shutdown():
             raise RuntimeError("ThreadController must be activated before pause().")
-        self._resume_event.clear()
+        # Serialized with `call_if_resume()`: when the event is cleared, every thread
+        # has either completely left its previous pause or is still blocked in it.
+        with self._resume_lock:
+            self._resume_event.clear()
 
     def is_resume(self) -> bool:
         """Returns whether the thread is resumed."""
@@ -98,6 +101,22 @@ class ThreadController:
         """Returns whether the thread is active."""
         return not self.is_shutdown()
 
+    def call_if_resume(self, callback: Callable[[], None]) -> bool:
+        """Call `callback` only if the thread is resumed, atomically with
+        respect to `pause()`.
+
+        Args:
+            callback: The function to be called while the thread is resumed.
+
+        Returns:
+            bool: True if the callback was called, False if the thread is paused.
+        """
+        with self._resume_lock:
+            if not self._resume_event.is_set():
+                return False
+            callback()
+            return True
+
     def wait_for_resume(self, timeout: float) -> bool:
         """Wait for the resume event to be set.
 
@@ -123,6 +142,7 @@ class ReadOnlyController:
         self.is_shutdown = controller.is_shutdown
         self.is_active = controller.is_active
         self.wait_for_resume = controller.wait_for_resume
+        self.call_if_resume = controller.call_if_resume
 
 
 class ControllerCommandHandler:
@@ -165,11 +185,13 @@ class ControllerCommandHandler:
             if not paused and self._controller.is_pause():
                 self.on_paused()
                 paused = True
-            if self._controller.wait_for_resume(1.0):
+            if not self._controller.wait_for_resume(1.0):
+                continue
+            # Leave the pause only while the resume is still in force: a pause requested
+            # right after the wake-up finds this thread either still paused (flag set,
+            # nothing executed) or completely resumed (flag cleared), never in between.
+            if not paused or self._controller.call_if_resume(self.on_resumed):
                 break
-
-        if paused:
-            self.on_resumed()
 
     def manage_loop(self) -> bool:
         """Manages the infinite loop: blocking during thread is paused, and returning thread's activity flag.
@@ -318,28 +340,6 @@ class ThreadStatusesMonitor:
                 )
             success &= result
         return success
-
-    def wait_for_all_threads_resume(
-        self, timeout: float, poll_interval: float = 1e-3
-    ) -> bool:
-        """Wait until no thread is marked as paused any more.
-
-        A thread released from a pause clears its paused flag only once it is
-        scheduled again, so right after a resume its flag may still be set.
-
-        Args:
-            timeout: The maximum time (second) to wait.
-            poll_interval: The interval (second) between two checks.
-
-        Returns:
-            bool: True if no thread is marked as paused, False if the timeout elapsed first.
-        """
-        deadline = time.monotonic() + timeout
-        while self.check_any_threads_paused():
-            if time.monotonic() >= deadline:
-                return False
-            time.sleep(poll_interval)
-        return True
 
     def check_exception_raised(self) -> bool:
         """Check if any thread has an exception.
